@@ -303,7 +303,7 @@ impl Oracle for HandshakeOracle {
                 let now = cx.now_ns;
                 for (c, st) in self.stepping.iter_mut() {
                     let Some(&t0) = self.created_at.get(c) else { continue };
-                    if now > t0 + 15_000_000_000 {
+                    if now > t0 + 25_000_000_000 {
                         continue;
                     }
                     if c == ep {
@@ -430,16 +430,22 @@ impl Oracle for HandshakeOracle {
                         if cx.plan.param(&format!("expect_error_ep{}", ep), -1.0) >= 0.0 {
                             continue;
                         }
-                        // only clients (and servers) that were created and kept stepping for 15 s
+                        // only clients (and servers) that were created and kept stepping for 25 s
                         let Some(&t0) = self.created_at.get(&ep) else { continue };
                         let Some(&(lc, ls, gap)) = self.stepping.get(&ep) else { continue };
-                        if lc < t0 + 14_000_000_000 || ls < t0 + 14_000_000_000 || gap > 1_000_000_000 {
+                        if lc < t0 + 24_000_000_000 || ls < t0 + 24_000_000_000 || gap > 1_000_000_000 {
                             continue;
                         }
                         let c_ok = self.connects_client.get(&ep).cloned().unwrap_or(0) == 1;
+                        // when only the server's very last transmission gets through, the client's
+                        // own budget may run out first: then the claim is only that a client which
+                        // did connect is connected on the server side as well
+                        if !c_ok && cx.plan.param(&format!("synack_outage_ep{}", ep), 0.0) >= 10.0 {
+                            continue;
+                        }
                         let s_ok = self.connects_server.get(&(*server, cx.addrs[ep])).cloned().unwrap_or(0) >= 1;
                         if !c_ok || !s_ok {
-                            return viol(prop, "handshake_incomplete", format!("client {}: Connect reported by the client: {}, by the server: {} although every handshake frame could be retried on a link that lost at most the first three datagrams of each direction (client error: {:?})", ep, c_ok, s_ok, self.errors_client.get(&ep).map(|k| err_name(*k))), 0);
+                            return viol(prop, "handshake_incomplete", format!("client {}: Connect reported by the client: {}, by the server: {} although every handshake frame could be retried on a link that lost only the first few datagrams of each direction (at most the first ten SYN-ACKs) (client error: {:?})", ep, c_ok, s_ok, self.errors_client.get(&ep).map(|k| err_name(*k))), 0);
                         }
                     }
                 }
